@@ -1,6 +1,7 @@
 import AquaVerif.Drv.Proto
 import AquaVerif.Drv.RainPartition
 import AquaVerif.Drv.RootZone
+import AquaVerif.Drv.WaterStress
 /-
 Line-protocol driver: reads requests on stdin, writes one reply line per request.
 Imports only Mathlib-free modules, so it links as a native executable.
@@ -9,7 +10,9 @@ open Aqua Aqua.Drv
 
 def handlers : List (String × Handler) := [
   ("rainfall_partition", hRainPartition),
-  ("root_zone_water", hRootZone)
+  ("root_zone_water", hRootZone),
+  ("water_stress", hWaterStress),
+  ("aeration_stress", hAerationStress)
 ]
 
 def step (ctx : Ctx) (line : String) : Ctx × String :=
